@@ -404,6 +404,13 @@ func loopRule(p *load.Program, s *oblig.Set) {
 		r := res{}
 		reads := 0
 		in.Hooks.Invoke = func(in *absint.Interp, recv absint.Val, m *types.Func, args []absint.Val, site ssa.Instruction) (absint.Val, bool) {
+			if m.Name() == "Parse" && len(args) == 1 {
+				// processInput inlined: the pending input goes to the parser here;
+				// what the parser answers is of no interest to the line loop
+				r.processed = append(r.processed, absint.Key(args[0]))
+				sig := m.Type().(*types.Signature)
+				return &absint.Tuple{E: []absint.Val{absint.Const{T: sig.Results().At(0).Type()}, absint.Const{T: sig.Results().At(1).Type()}}}, true
+			}
 			if m.Name() == "read" {
 				reads++
 				errT := m.Type().(*types.Signature).Results().At(1).Type()
@@ -869,6 +876,42 @@ func earlyExits(b *ssa.BasicBlock, trees ssa.Value) []token.Pos {
 	if len(inLoop) < 2 {
 		return nil
 	}
+	// the loop over the statements may sit inside another loop (the line loop
+	// of a driver that parses and runs in one function): take the innermost
+	// one, the blocks dominated by the header that tests the index against
+	// len(trees) and leading back to it
+	isBound := func(x *ssa.BasicBlock) bool {
+		if len(x.Instrs) == 0 {
+			return false
+		}
+		iff, ok := x.Instrs[len(x.Instrs)-1].(*ssa.If)
+		if !ok {
+			return false
+		}
+		cmp, ok := iff.Cond.(*ssa.BinOp)
+		if !ok || cmp.Op != token.LSS {
+			return false
+		}
+		l, ok := cmp.Y.(*ssa.Call)
+		if !ok {
+			return false
+		}
+		bi, ok := l.Call.Value.(*ssa.Builtin)
+		return ok && bi.Name() == "len" && strip(l.Call.Args[0]) == trees
+	}
+	for h := range inLoop {
+		if !isBound(h) || !h.Dominates(b) {
+			continue
+		}
+		inner := map[*ssa.BasicBlock]bool{h: true}
+		for x := range inLoop {
+			if h.Dominates(x) && reachesWithin(x, h, inLoop, h) {
+				inner[x] = true
+			}
+		}
+		inLoop = inner
+		break
+	}
 	var out []token.Pos
 	for x := range inLoop {
 		for _, sc := range x.Succs {
@@ -996,4 +1039,27 @@ func intAtZero(v absint.Val) (int64, bool) {
 		return l.C, true
 	}
 	return 0, false
+}
+
+// reachesWithin: from reaches to by edges that stay inside the set and do not
+// pass through stop (other than arriving at it).
+func reachesWithin(from, to *ssa.BasicBlock, set map[*ssa.BasicBlock]bool, stop *ssa.BasicBlock) bool {
+	seen := map[*ssa.BasicBlock]bool{}
+	var dfs func(x *ssa.BasicBlock) bool
+	dfs = func(x *ssa.BasicBlock) bool {
+		for _, sc := range x.Succs {
+			if sc == to {
+				return true
+			}
+			if !set[sc] || seen[sc] || sc == stop {
+				continue
+			}
+			seen[sc] = true
+			if dfs(sc) {
+				return true
+			}
+		}
+		return false
+	}
+	return dfs(from)
 }
